@@ -170,4 +170,12 @@ PROPS = {
         ],
         "assumptions": ["the authorization filter in front of BulkAdd is C05_bulk's subject", "errors raised by the store inside a bulk write are not modelled"],
     },
+    "C15": {
+        "trusted_base": [
+            "Model/Gripper.v materialise is the hand-written statement of what gripper/graph.go synthesises (GetVertexList, GetEdgeList, GenID); the traversal semantics on that graph is Model/Traversal.v (C01)",
+            "the table service is the repository's own SimpleTableServicer with preloaded drivers, reached over an in-memory gRPC connection (bufconn): the external plugin processes of a deployment are not exercised",
+            "the second reference (the same graph in the embedded store) is built by the harness' own materialisation in Go, compared only where the store can hold the graph (no two link rows with equal endpoints)",
+        ],
+        "assumptions": ["vertex prefixes do not overlap and row ids contain no '-' (edge ids are split on '-')", "E(id) on an id shared by several link rows is not compared (which row it shows is unspecified)"],
+    },
 }
